@@ -239,7 +239,9 @@ impl Prop for C19 {
             constraints.push(c);
         }
         let pos = |r: &mut Rng, v: &str| if r.chance(1, 3) { node(r) } else { v.to_string() };
-        let goal = (pos(&mut r, "?s"), if r.chance(1, 6) { "?p".to_string() } else { format!("p{}", r.usize(3)) }, pos(&mut r, "?o"));
+        let goal = if r.chance(1, 8) { ("?x".to_string(), format!("p{}", r.usize(3)), "?x".to_string()) }          // repeated variable
+            else if r.chance(1, 10) { let f = r.pick(&facts).clone(); f }                                                     // fully ground goal
+            else { (pos(&mut r, "?s"), if r.chance(1, 6) { "?p".to_string() } else { format!("p{}", r.usize(3)) }, pos(&mut r, "?o")) };
         let rules = if cfg.chance(1, 2) { vec![dm::Rule { prem: vec![("?x".into(), format!("p{}", r.usize(3)), "?y".into())], neg: vec![], conc: vec![("?y".into(), format!("p{}", r.usize(3)), "?x".into())], filt: vec![] }] } else { vec![] };
         let k = if tier == Tier::Quick { 8 } else { 32 };
         RepCase { hash_seeds: (0..k).map(|_| hs.next()).collect(), facts, constraints, goal, rules }
